@@ -75,6 +75,7 @@ Lemma cache_rewrite_uses_set_timer_today : C16Consts.cache_rewrite_uses_move_tim
 Proof. reflexivity. Qed.
 
 Lemma cache_entry_expires_clamped_today : forall limit pre k v d a,
+  0 < d ->
   let s1 := cw_final (cw_new limit C16Consts.cache_slots C16Consts.cache_wheel_interval_ns
                              C16Consts.cache_rewrite_uses_move_timer)
                      (pre ++ [XSet k v d]) in
@@ -84,7 +85,7 @@ Lemma cache_entry_expires_clamped_today : forall limit pre k v d a,
   if xticks a <? Z.max d C16Consts.cache_wheel_interval_ns / C16Consts.cache_wheel_interval_ns
   then Some v else None.
 Proof.
-  intros limit pre k v d a.
+  intros limit pre k v d a _.
   destruct cache_wheel_params_ok as [Hn Hi].
   rewrite cache_rewrite_uses_set_timer_today.
   apply cache_entry_expires_clamped_proof; assumption.
